@@ -1,5 +1,5 @@
 SPECIFICATION GenSpec
-CONSTANTS DimSeq <- Dims2 MaskSeq <- Masks13 CliSeq <- Clis1 DestSeq <- Dest3 PathSeq <- Path2 Toks <- Tok01
+CONSTANTS DimSeq <- Dims2 MaskSeq <- MasksF CliSeq <- Clis1 DestSeq <- Dest3 PathSeq <- Path2 Toks <- Tok01
   Impl = "cxx" WithAll = TRUE Acts <- ActsCxx MaxTab = 2
   ItemSet <- None MaxItems = 0 GapSet <- None EdgeGaps <- None
   Letters <- None MaxLetters = 0 LetterGaps <- None NodeSet <- None MaxNodes = 0
